@@ -48,6 +48,8 @@ def check(ctx, report):
     flags_and_timestamps(ctx, report, R4='C05.R10', R5='C05.R10')
     text_dates(ctx, report)
     json_member_round_trip(ctx, report)
+    from .c01 import number_presence_by_truth_value
+    number_presence_by_truth_value(ctx, report, RULE='C05.R14')
     from .c08 import rsa_key_round_trip
     report.rule('C05.R13', 'DNSKEY RSA and DSA fields: every exponent / modulus / prime encoding that is accepted is composed to bytes that read as the same key')
     rsa_key_round_trip(ctx, report, rule='C05.R13')
